@@ -83,12 +83,21 @@ struct Observed {
   std::string error;  // non-empty: an API call misbehaved while observing
 };
 
+// Out-parameters are handed in holding a recognisable non-NULL value (what a caller's re-used or uninitialised
+// variable looks like): a successful call has to overwrite it.
+static char *const VF_STALE_STR = (char *)0x5a5a5a50;
+static char **const VF_STALE_ARR = (char **)0x5a5a5a58;
+
 inline Observed observe(econf_file *kf) {
   Observed o;
-  size_t n = 0;
-  char **g = nullptr;
+  size_t n = 4242;
+  char **g = VF_STALE_ARR;
   econf_err e = econf_getGroups(kf, &n, &g);
   o.rc_groups = e;
+  if (e == ECONF_SUCCESS && (g == VF_STALE_ARR || n == 4242)) {
+    o.error = "getGroups: success, but the out-parameters were not written";
+    return o;
+  }
   if (e == ECONF_SUCCESS) {
     for (size_t i = 0; i < n; i++) o.groups.push_back(g[i]);
     if (g && g[n] != nullptr) o.error = "getGroups: array not NULL-terminated";
@@ -100,10 +109,14 @@ inline Observed observe(econf_file *kf) {
   secs.push_back("");
   for (auto &s : o.groups) secs.push_back(s);
   for (auto &s : secs) {
-    size_t kn = 0;
-    char **ks = nullptr;
+    size_t kn = 4242;
+    char **ks = VF_STALE_ARR;
     e = econf_getKeys(kf, s.empty() ? nullptr : s.c_str(), &kn, &ks);
     std::vector<std::string> kv;
+    if (e == ECONF_SUCCESS && (ks == VF_STALE_ARR || kn == 4242)) {
+      o.error = "getKeys(" + esc(s) + "): success, but the out-parameters were not written";
+      return o;
+    }
     if (e == ECONF_SUCCESS) {
       for (size_t i = 0; i < kn; i++) kv.push_back(ks[i]);
       if (ks && ks[kn] != nullptr) o.error = "getKeys: array not NULL-terminated";
@@ -115,10 +128,14 @@ inline Observed observe(econf_file *kf) {
     for (auto &k : kv) {
       auto id = std::make_pair(s, k);
       if (o.vals.count(id)) continue;
-      char *v = nullptr;
+      char *v = VF_STALE_STR;
       e = econf_getStringValue(kf, s.empty() ? nullptr : s.c_str(), k.c_str(), &v);
       if (e != ECONF_SUCCESS) {
         o.error = "getStringValue(" + esc(s) + "," + esc(k) + ") rc=" + std::to_string(e);
+        continue;
+      }
+      if (v == VF_STALE_STR) {
+        o.error = "getStringValue(" + esc(s) + "," + esc(k) + "): success, but the out-pointer was not written";
         continue;
       }
       if (v)
